@@ -1,0 +1,86 @@
+//go:build verif
+
+package http3
+
+// Export shims for the C19 unit "stream-frames-sequence" of the verification harness in /verif (compiled only with
+// -tags verif). Add-only, no behaviour change: constructors that wire the receive side of a request stream the way
+// RawServerConn.handleRequestStream (server_conn.go: newStream + decodeTrailers closure + newRequestBody) and the
+// client (client.go openRequestStream: newStream + decodeTrailers closure + newRequestStream; stream.go ReadResponse:
+// newResponseBody) wire it, over a stream the harness implements, without a QUIC connection.
+//
+// There is no connection, so the two places that close the connection need care:
+//   - frameParser.closeConn (reserved HTTP/2 frame types) is replaced by the callback the harness passes;
+//   - Stream.conn stays nil, as in VerifNewResponseWriter: Stream.Read's "unexpected frame" branch (SETTINGS / GOAWAY on
+//     a request stream) dereferences it. The harness never sends those frame types on purpose and treats the resulting
+//     nil dereference inside rawConn.CloseWithError as "connection closed" (see /verif/harness/c19/NOTES.md).
+
+import (
+	"context"
+	"io"
+	"net/http"
+
+	"github.com/quic-go/qpack"
+	"github.com/refraction-networking/uquic"
+)
+
+// VerifDatagramStream is the stream interface newStream needs (all of its methods are exported).
+type VerifDatagramStream = datagramStream
+
+// VerifRequestBodyReader is the server's view of a request after its header section was accepted.
+type VerifRequestBodyReader struct {
+	// Request is the request the handler would be given: Body reads the stream, Trailer is set by the trailer closure.
+	Request *http.Request
+}
+
+// VerifNewRequestBodyReader wires str like RawServerConn.handleRequestStream does once requestFromHeaders succeeded.
+// contentLength is -1 or the request's Content-Length.
+func VerifNewRequestBodyReader(str VerifDatagramStream, contentLength int64, maxHeaderBytes int, closeConn func(quic.ApplicationErrorCode, string) error) *VerifRequestBodyReader {
+	req := &http.Request{Method: http.MethodPost, Header: http.Header{}, ContentLength: contentLength}
+	decoder := qpack.NewDecoder()
+	hstr := newStream(str, nil, nil, func(r io.Reader, hf *headersFrame) error {
+		trailers, err := decodeTrailers(r, hf, maxHeaderBytes, decoder, nil, str.StreamID())
+		if err != nil {
+			return err
+		}
+		req.Trailer = trailers
+		return nil
+	}, nil)
+	hstr.frameParser.closeConn = closeConn
+	rcvd := make(chan struct{})
+	close(rcvd)
+	req.Body = newRequestBody(hstr, contentLength, context.Background(), rcvd, func() *Settings { return &Settings{} })
+	return &VerifRequestBodyReader{Request: req}
+}
+
+// VerifResponseReader is the client's view of a request stream: the real RequestStream over the harness's stream.
+type VerifResponseReader struct {
+	rs *RequestStream
+	// Done is closed when the response body reports that the request is done (hijackableBody.requestDone).
+	Done <-chan struct{}
+}
+
+// VerifNewResponseReader wires str like ClientConn.openRequestStream does (compression disabled).
+func VerifNewResponseReader(str VerifDatagramStream, maxHeaderBytes int, closeConn func(quic.ApplicationErrorCode, string) error) *VerifResponseReader {
+	rsp := &http.Response{}
+	decoder := qpack.NewDecoder()
+	done := make(chan struct{})
+	hstr := newStream(str, nil, nil, func(r io.Reader, hf *headersFrame) error {
+		hdr, err := decodeTrailers(r, hf, maxHeaderBytes, decoder, nil, str.StreamID())
+		if err != nil {
+			return err
+		}
+		rsp.Trailer = hdr
+		return nil
+	}, nil)
+	hstr.frameParser.closeConn = closeConn
+	rs := newRequestStream(hstr, newRequestWriter(), done, decoder, true, maxHeaderBytes, rsp)
+	return &VerifResponseReader{rs: rs, Done: done}
+}
+
+// SendRequestHeader is RequestStream.SendRequestHeader (writes the request's HEADERS frame to the stream).
+func (v *VerifResponseReader) SendRequestHeader(req *http.Request) error {
+	return v.rs.SendRequestHeader(req)
+}
+
+// ReadResponse is RequestStream.ReadResponse: the response's Body reads the stream, its Trailer is set by the closure.
+func (v *VerifResponseReader) ReadResponse() (*http.Response, error) { return v.rs.ReadResponse() }
